@@ -2,7 +2,7 @@
 # usage: tools/mutrun.sh <patch.diff | sed-expr-file> <PROP> <tier> [extra env]
 # Applies a patch to a scratch copy of /repo (never /repo itself), runs the check against it, removes the copy.
 set -u
-PATCH=$1; PROP=$2; TIER=${3:-quick}
+PATCH=$(readlink -f $1); PROP=$2; TIER=${3:-quick}
 D=$(mktemp -d /tmp/mutrepo.XXXXXX)
 rsync -a --exclude .git /repo/ $D/
 ( cd $D && patch -p1 -s < $PATCH ) || { echo "PATCH FAILED"; rm -rf $D; exit 3; }
